@@ -324,6 +324,13 @@ impl Checker {
                         }
                     }
                 }
+                // ... or the filter hashes agreed on so far reach above a fork point that the
+                // proven headers do not show yet: a peer switched branches a moment ago
+                if let Some(t) = sim.last_reorg_at {
+                    if sim.now < t + 120_000 {
+                        off_chain = true;
+                    }
+                }
                 if off_chain && (filter_answer || reason.contains("check points")) {
                     clause = "honest_peer_banned_for_filter_answer_during_reorg_window".to_string();
                 }
